@@ -864,6 +864,7 @@ def replay(ctx, body):
 
 def run(ctx):
     signal.signal(signal.SIGVTALRM, _alarm)
+    _sig.clear(); _hung[0] = 0; _reported.clear()      # every run (also the confirming re-run in the same process) counts from zero
     ctx.rule = ('S2C: (a) every in-domain query MC_Calendar enumerates for a seeded 1-in-GenMod sample of the configurations of each family '
                 '(all holiday subsets of a window across a weekend and a month end x 4 weekends x f/p/m x ranges that are wide, tight, or begin / end '
                 'exactly on the window so that the first / last day is a holiday or a weekend day) x every day - incl. single-day and backward '
